@@ -239,11 +239,12 @@ func cutsOf(ops []vfs.Op) []cutInfo {
 }
 
 // posOf names a crash point for fingerprints: the phase of the store's protocol (the last completed
-// foreground operation; the writer's operations in between do not make a new class) and, for a torn
+// foreground operation; the writer's operations in between do not make a new class) or, for a torn
 // write, the operation in flight and where it was cut.
 func posOf(ci cutInfo, tornName, tearKind string) string {
 	if tornName != "" {
-		return "fg-after=" + ci.FgAfter + "/torn=" + tornName + ":" + tearKind
+		// the operation in flight names the phase by itself
+		return "torn=" + tornName + ":" + tearKind
 	}
 	return "fg-after=" + ci.FgAfter
 }
@@ -679,6 +680,23 @@ func coordinator() {
 				}
 			}
 		}
+	}
+	// non-vacuity: the phases of the store's protocol named in the property's anchors must have been cut
+	for _, k := range []string{"cut_after:F:write:wal[act+blk+hgt]", "cut_after:F:write:wal[trie]", "cut_after:F:write:wal[code]", "cut_after:F:ldb:stable", "cut_after:F:sync:ctx",
+		"cut_after:B:write:cask[act]", "cut_after:B:write:cask[blk]", "cut_after:B:write:cask[trie]", "cut_after:B:ldb:curpos", "cut_after:B:write:wal[assetcode]", "cut_after:F:ldbopen", "cut_in_step:restart"} {
+		alt := strings.Replace(k, "F:sync:ctx", "F:rename:ctx", 1)
+		if r.Counters[k] == 0 && r.Counters[alt] == 0 {
+			r.NotExhaustive("coverage self-check: no crash point counted under " + k)
+		}
+	}
+	tornWal := int64(0)
+	for k, v := range r.Counters {
+		if strings.HasPrefix(k, "torn:F:write:wal[") && strings.Contains(k, ":4096@") {
+			tornWal += v
+		}
+	}
+	if tornWal == 0 {
+		r.NotExhaustive("coverage self-check: no write-ahead batch was large enough for a 4 KiB page tear")
 	}
 	r.Add("crash_images_distinct", int64(len(seen)))
 	r.Extra["schedules_tried"] = schedTried
